@@ -1,4 +1,4 @@
-"""Delegation check for the six key / Ord sort wrappers (C16, C17).
+"""Delegation check for the four key-function sort wrappers (C16, C17); the three Ord wrappers are verified by Verus.
 
 Each wrapper's whole body must be one call to the base variant of ITS axis and ITS stability, with
 the index forwarded unchanged and the comparison built from the key function / Ord::cmp in the
@@ -14,11 +14,8 @@ sys.path.insert(0, os.path.dirname(os.path.abspath(__file__)))
 from rustscan import SourceFile  # noqa: E402
 
 EXPECT = {
-    "sort_row_ord": "self.sort_by_row(row,T::cmp);",
-    "sort_unstable_row_ord": "self.sort_unstable_by_row(row,T::cmp);",
     "sort_by_row_key": "self.sort_by_row(row,|a,b|f(a).cmp(&f(b)));",
     "sort_unstable_by_row_key": "self.sort_unstable_by_row(row,|a,b|f(a).cmp(&f(b)));",
-    "sort_col_ord": "self.sort_by_col(col,T::cmp);",
     "sort_by_col_key": "self.sort_by_col(col,|a,b|f(a).cmp(&f(b)));",
     "sort_unstable_by_col_key": "self.sort_unstable_by_col(col,|a,b|f(a).cmp(&f(b)));",
 }
